@@ -19,7 +19,7 @@ def oracle(c, real):
 
 
 def streams(ctx):
-    n = 6 if ctx.thorough else 1
+    n = 12 if ctx.thorough else 1
     return [("scripts", "script", 400 * n), ("same-named-contigs", "dupnames", 200 * n), ("tight-scripts", "tightscript", 100 * n), ("perturbed", "perturbed", 400 * n), ("arbitrary-baits", "baits", 300 * n),
             ("tagged", "tagged", 200 * n), ("tagged-2hap", "tagged2", 100 * n), ("tagged-slivers", "slivers", 150 * n), ("exact-ties", "tie", 100 * n), ("holes-between-pieces", "hole", 200 * n)]
 
